@@ -250,7 +250,16 @@ def oracle(c, stats):
     for k in ("dof", "defect", "equations", "unknowns"):
         if S1[k] != S2[k]:
             fails.append("%s.%s: %s vs %s" % (tr, k, S1[k], S2[k]))
-    if abs(S1["sum_of_squares"] - S2["sum_of_squares"]) > 1e-5 * S1["sum_of_squares"] + 1e-9:
+    # two descriptions may stop re-linearising after a different number of iterations (rounding in gama's 0.0005 mm
+    # test; azimuths and zenith angles are not part of it): then they agree within gama's criteria as in C08 / C13,
+    # not to the printed digits
+    same_path = S1.get("iterations") == S2.get("iterations")
+    rel_s = 1e-5 if same_path else 2e-4
+    if not same_path:
+        stats.label("iterations_differ")
+    vpv = max(S1["sum_of_squares"], 0.0)
+    tol_vpv = 1e-5 * vpv + 1e-9 if same_path else 2e-3 * vpv + 2e-3 * math.sqrt(vpv) + 1e-7
+    if abs(S1["sum_of_squares"] - S2["sum_of_squares"]) > tol_vpv:
         fails.append("%s.sum_of_squares: %r vs %r" % (tr, S1["sum_of_squares"], S2["sum_of_squares"]))
     P1, P2 = physical_coords(net, x1), physical_coords(net2, x2)
     dE = c["par"].get("dE", 0.0) if tr == "translate" else 0.0
@@ -348,7 +357,7 @@ def oracle(c, stats):
                 fails.append("%s.residual: %s residual %.6g vs %.6g" % (tr, (k,), a, b))
                 break
         for a, b in zip(s1, s2):
-            if abs(a - b) > 1e-5 * max(a, b) + 1e-7:
+            if abs(a - b) > rel_s * max(a, b) + 1e-7:
                 if k in corr_keys:
                     # known finding corr-obs-stdev (C09): stdev of adjusted observations inside clusters with
                     # a banded covariance depends on the order of the rows; only this sub-assertion is skipped
@@ -366,7 +375,7 @@ def oracle(c, stats):
             fails.append("%s.ellipse_missing: %s" % (tr, pid))
             continue
         for kk in ("major", "minor"):
-            if abs(e1[kk] - e2[kk]) > 1e-5 * max(e1["major"], 1e-6) + 1e-7:
+            if abs(e1[kk] - e2[kk]) > rel_s * max(e1["major"], 1e-6) + 1e-7:
                 fails.append("%s.ellipse_%s: %s %.9g vs %.9g" % (tr, kk, pid, e1[kk], e2[kk]))
     # orientations: shifted by -c for a rotated circle
     if tr == "rotate_circle":
